@@ -46,6 +46,15 @@ CHECKS.update({
             "Trusted: TLC; the synthetic frame is well-formed for every family (so acceptance = err == nil); constellation names compared after normalisation.", "DESIGN.md 6/C20"),
 })
 
+CHECKS.update({
+    "C07": ("exploration", "TLC-enumerated guard-threshold case space (C07_Cases.tla, with in-bounds invariant of the guards) replayed on the real code under panic/hang monitors",
+            "The verdict is a runtime observation (recovered panic, 10 s watchdog) on the real code; the TLA+ model supplies (i) the design-level invariant that whenever the decoders' "
+            "length guards accept, every bit read lies inside the frame, for every payload length 1..1023 and every mask shape, and (ii) the exhaustive list of payload lengths at which a guard flips, "
+            "per (family, nSat, nSig), which the driver concretises into CRC-valid frames with zero/one/random bits, illegal timestamps and all 14 MSM types and pushes through GetMessage, Analyse, String "
+            "(both log levels), Copy, the four decoders and HandleMessages.",
+            "TLA+ proves nothing about Go memory safety; the level is model-guided exploration.  Trusted: recover() and the watchdog as monitors.", "DESIGN.md 6/C07"),
+})
+
 NOT_YET = {}
 
 
